@@ -140,7 +140,12 @@ def render_files(funcs):
                 continue
             n += 1
             lines += [""] + (py_func if lang == "Python" else c_func)(f"fn_{fid}_{n}_{L}", L)
-        out[fname] = "\n".join(lines) + "\n"
+        mine = [(f, L) for (f, L) in funcs if f == fid]
+        if len(mine) == 1:
+            # the whole file is this one function, and its last line is not terminated: L lines, L - 1 line breaks
+            out[fname] = "\n".join((py_func if lang == "Python" else c_func)(f"fn_{fid}_1_{mine[0][1]}", mine[0][1]))
+        else:
+            out[fname] = "\n".join(lines) + "\n"
     return out
 
 
